@@ -184,6 +184,17 @@ def R1_plugin(ctx):
         okr = okr and contains(base, lambda s: s[0] == "call" and s[1].endswith("Value::as_object") and unmut(s[2][0]) == ("arg", 2))
         okr = okr and all(b.dominates(rem[0].bb, c.bb) for c in b.calls() if c.callee and "MultiSet" in c.callee)
     ctx.check(okr, "copy-minus-grid-key", "children are not built from a copy of the original object with the grid key removed", b.where(), detail="clone().remove(grid_search)")
+    # whether a section is expanded or refused does not depend on what its option *values* say: no branch of `process` is decided
+    # by a test on the serialised text of the section (fixed defect: the recursion guard was `to_string(section).contains("grid_search")`,
+    # so {"grid_search": {"name": ["grid_search_run_a", "b"]}} was an error instead of two queries; the guard now looks for a nested
+    # grid_search *key*)
+    textual = []
+    for sbb, dt, names, t_ in switches(b, tm):
+        d_ = nosite(deep_strip(dt))
+        ser = [x for x in calls_in(d_) if re.search(r"serde_json::(ser::)?to_string(_pretty)?$|ToString>?::to_string$|fmt::format$|Display>?::fmt$", x[1].split("{")[0]) and contains(x, lambda q: q[0] == "call" and q[1].endswith("get_grid_search"))]
+        if ser:
+            textual.append(short(d_)[:140])
+    ctx.check(not textual, "refusal:independent-of-option-values", "a branch of GridSearchPlugin::process is decided by the serialised text of the grid section (%s): a section whose option values merely contain that text is refused instead of expanded" % "; ".join(textual[:2]), b.where(), detail="no test on to_string(section)")
     # the section that is read is the section that is removed: get_grid_search is a plain lookup of the one key the children lose.
     # (round 6: a spelling-tolerant fallback in get_grid_search expanded queries that have no `grid_search` field, and the
     # children kept the whole section because `remove` still used the exact key)
